@@ -15,8 +15,9 @@ out.append('Each change was written by a fresh sub-agent that saw only the text 
            '(34/34 baseline tests, 108 passing in total), the demo exits 1 on the patched copy and 0 on a clean one. The last column '
            'gives every quick check (seed 0) that reported a `VIOLATION` on the patched copy when the change was kept (with the machinery of that moment; '
            'later strengthening only adds checks to these lists); the check of the change\'s own property was re-run on every kept change with the final '
-           'machinery (`tools/reeval_all.py --own-only`). Two kept changes were affected by later repairs of `/repo`: `C13-missing-thresholds-inherit-previous-epoch` '
-           'no longer applied after repair D13 rewrote the neighbouring lines and was rebased (same one-line change, re-confirmed); '
+           'machinery (`tools/reeval_all.py --own-only`). A few kept changes were affected by later repairs of `/repo`: `C13-missing-thresholds-inherit-previous-epoch` and `C15-find-extrema-kwargs-setdefault` '
+           'no longer applied after repairs D13 / D14 rewrote neighbouring lines, and `C19-range-check-skipped-when-no-burst` still applied but had become inert after repair D15 '
+           'moved the range check; the three were rebased (same change, re-confirmed with `tools/seeded_eval.py`, note in their meta.json); '
            '`C04-volt-amp-mean-in-signal-dtype` (round 7: `volt_amp` averaged in the dtype of the signal) became inert once repair D14 made '
            '`compute_shape_features` analyse integer recordings as floats - its own demo passes on the patched copy - and was retired.\n')
 out.append('| seeded change | breaks | needs, in order to manifest | caught by (quick, seed 0) |')
@@ -36,7 +37,10 @@ out.append('### 5.1b Behaviour-preserving refactorings (false-alarm resistance)\
 out.append('Twelve further sub-agents (six early, six after round 8 of the seeded changes, when the checks had become much stricter) were each given two to four property texts and a scratch worktree and asked for a *substantial '
            'refactoring that keeps the properties true* (vectorising loops, restructuring branches, renaming and splitting helpers, '
            'rebuilding tables differently), validated by their own differential script against the original functions. Kept under '
-           '`refactors/<id>/`. Every quick check was run on each refactored copy:\n')
+           '`refactors/<id>/`. Every quick check was run on each refactored copy when it was kept (the `/repo` HEAD of that moment is recorded in its meta.json); R1-R3, R7, R8 '
+           'and R11 still apply to the final `/repo` HEAD and were re-run with the final machinery (`tools/reeval_all.py`: no alarm); the patches of R4, R5, R6, R9, R10 and R12 '
+           'overlap in one hunk each with lines that a later repair (D12, D13, D15-D17) rewrote (R10 still applies textually but collides with the branch added by D17: the copy does '
+           'not import, and every check reports INCONCLUSIVE, not a violation) and are kept as records of the evaluation at their time:\n')
 out.append('| refactoring | changed lines | alarms raised by the 20 quick checks |')
 out.append('|---|---|---|')
 for mf in sorted(glob.glob(os.path.join(HERE, 'refactors', '*', 'meta.json'))):
